@@ -7,6 +7,7 @@ import (
 	"runtime"
 	"runtime/debug"
 	"sort"
+	"strconv"
 	"strings"
 	"sync"
 	"time"
@@ -55,7 +56,13 @@ func Deadline(quick, thorough time.Duration) time.Time {
 	if Tier() == "thorough" {
 		return time.Now().Add(thorough)
 	}
-	return time.Now().Add(quick)
+	// the quick grids are sized to finish well inside `quick` on an idle 16-core machine; the deadline is a safety
+	// net, so it gets slack (a loaded machine should finish the enumeration rather than report a partial one)
+	slack := 3.0
+	if v, err := strconv.ParseFloat(os.Getenv("VERIF_QUICK_SLACK"), 64); err == nil && v > 0 {
+		slack = v
+	}
+	return time.Now().Add(time.Duration(float64(quick) * slack))
 }
 
 // OutcomeSig is a canonical description of what a reconcile did.
